@@ -328,6 +328,9 @@ func replayOnRealCode(eng *Engine, prop, obl string, f *OblResult, inputs map[st
 
 // runBounded runs a bounded stand-in (exhaustive / random executable-contract test on the real code).
 func runBounded(eng *Engine, prop, name, tier string, seed int) (string, string) {
+	if name == "behaviour_corpus" {
+		return runDemoCorpus(eng, prop)
+	}
 	ri := loadReplayIndex(eng.verif)
 	for _, e := range ri.Bounded {
 		if e.Name != name {
@@ -384,4 +387,83 @@ func checkLemma(eng *Engine, name string) (bool, string) {
 		return false, fmt.Sprintf("lemma %s: lean failed: %s", name, trunc(string(out), 600))
 	}
 	return true, fmt.Sprintf("lemma %s: checked by Lean 4 + Mathlib in %.1fs", name, time.Since(t0).Seconds())
+}
+
+// runDemoCorpus: bounded stand-in of last resort. Every seeded change kept under /verif/seeded/<prop>-<k>/ comes with
+// a demonstration - an in-package test with an oracle for the property that passes on the code without the change.
+// The demonstrations of the property are injected one at a time with -overlay and run against the current tree; a
+// demonstration that fails twice in a row is reported. Used when a function under contract could not be verified
+// (contract stale or function outside the generator's subset), never counted as proved.
+func runDemoCorpus(eng *Engine, prop string) (string, string) {
+	dirs, _ := filepath.Glob(filepath.Join(eng.verif, "seeded", prop+"-*"))
+	sort.Strings(dirs)
+	t0 := time.Now()
+	ran := 0
+	var failed []string
+	var outputs []string
+	runRe := regexp.MustCompile(`-run[ =]+'?"?([^'" ]+)`)
+	for _, d := range dirs {
+		var meta struct {
+			DemoPath string `json:"demo_path"`
+			DemoCmd  string `json:"demo_cmd"`
+		}
+		data, err := os.ReadFile(filepath.Join(d, "meta.json"))
+		if err != nil || json.Unmarshal(data, &meta) != nil {
+			continue
+		}
+		rel := strings.Fields(meta.DemoPath)
+		if len(rel) == 0 {
+			continue
+		}
+		pkgRel := filepath.Dir(rel[0])
+		m := runRe.FindStringSubmatch(meta.DemoCmd)
+		if m == nil {
+			continue
+		}
+		files, _ := filepath.Glob(filepath.Join(d, "*_test.go"))
+		if len(files) == 0 {
+			continue
+		}
+		run := func() (string, error) {
+			work, _ := os.MkdirTemp("", "govc-demo-")
+			defer os.RemoveAll(work)
+			dst := filepath.Join(eng.repo, pkgRel, "zz_govc_demo_"+filepath.Base(d)+"_test.go")
+			ov, _ := json.Marshal(map[string]any{"Replace": map[string]string{dst: files[0]}})
+			ovf := filepath.Join(work, "overlay.json")
+			os.WriteFile(ovf, ov, 0o644)
+			ctx, cancel := context.WithTimeout(context.Background(), 150*time.Second)
+			defer cancel()
+			cmd := exec.CommandContext(ctx, "go", "test", "-mod=mod", "-overlay", ovf, "-vet=off", "-count=1", "-timeout", "120s", "-run", m[1], "./"+pkgRel+"/")
+			cmd.Dir = eng.repo
+			out, err := cmd.CombinedOutput()
+			return string(out), err
+		}
+		ran++
+		out, err := run()
+		if err != nil {
+			out, err = run() // a timing-dependent demonstration gets a second chance
+		}
+		if err != nil {
+			failed = append(failed, filepath.Base(d))
+			var keep []string
+			for _, l := range strings.Split(out, "\n") {
+				if strings.Contains(l, "FAIL") || strings.Contains(l, "violated") || strings.Contains(l, "panic:") || strings.Contains(l, "Error") {
+					keep = append(keep, strings.TrimSpace(l))
+				}
+			}
+			outputs = append(outputs, filepath.Base(d)+": "+trunc(strings.Join(keep, " | "), 1200))
+		}
+	}
+	note := fmt.Sprintf("bounded stand-in behaviour_corpus (%d demonstration tests of %s from /verif/seeded, each with an oracle on the real code): %d failed in %.1fs [bounded, never counted as proved]", ran, prop, len(failed), time.Since(t0).Seconds())
+	if len(failed) > 0 {
+		dir := filepath.Join(outDir(eng), "replays", prop)
+		os.MkdirAll(dir, 0o755)
+		path := filepath.Join(dir, "bounded_behaviour_corpus.json")
+		rec := map[string]any{"property": prop, "bounded_check": "behaviour_corpus", "failed_demonstrations": failed, "output": outputs,
+			"replayed_on_real_code": true, "how": "go test -overlay (demonstration test injected, nothing written to /repo)"}
+		data, _ := json.MarshalIndent(rec, "", " ")
+		os.WriteFile(path, data, 0o644)
+		return note + " VIOLATION", path
+	}
+	return note + " ok", ""
 }
